@@ -932,7 +932,7 @@ Proof.
   destruct (Nat.leb (length (p_ahs s)) ahid) eqn:E; [cbn [fst]; split; [apply conserve_refl|exact V]|].
   apply Nat.leb_gt in E. rename E into Hi.
   set (ah := get_ah s ahid). set (a := get_obj s (ah_app ah)).
-  destruct (inactive a (p_now s)).
+  destruct (flush_inactive a (p_now s)).
   - cbn [fst]. split; [apply same_acct_conserve; repeat split|].
     intros r i Hl. proj_simp. apply lookupN_removeN in Hl. exact (V r i Hl).
   - pose proof (filter_harvest_pkgs_ok (put_ah_h s ahid (new_harvest (cur_caps a))) (ah_app ah) (ah_h ah)) as F.
@@ -1059,7 +1059,7 @@ Proof.
   destruct acc as [s o]. cbn [fst]. unfold flush_run.
   destruct (Nat.leb (length (p_ahs s)) (snd ra)); [reflexivity|].
   set (ah := get_ah s (snd ra)). set (a := get_obj s (ah_app ah)).
-  destruct (inactive a (p_now s)); [reflexivity|].
+  destruct (flush_inactive a (p_now s)); [reflexivity|].
   pose proof (filter_harvest_pkgs_ok (put_ah_h s (snd ra) (new_harvest (cur_caps a))) (ah_app ah) (ah_h ah)) as F.
   destruct (filter_harvest_pkgs (put_ah_h s (snd ra) (new_harvest (cur_caps a))) (ah_app ah) (ah_h ah)) as [s2 h1].
   cbn [fst snd] in F. destruct F as (_ & _ & F3 & _).
